@@ -268,6 +268,8 @@ type RecBackend struct {
 	termGate map[string]chan struct{} // "<id>/<n>" -> closed to release
 	deqGate  map[string]bool          // "<id>/<n>" -> hold a dequeued message until Closing()
 	gateOf   map[*broker.Client]string
+	// every will publication is slowed down by this much (a slow backend): what must wait for it is then visibly late
+	willDelay time.Duration
 }
 
 func (b *RecBackend) holdTerminate(id string, n int) func() {
@@ -372,6 +374,10 @@ func (b *RecBackend) Publish(c *broker.Client, m *packet.Message, ack broker.Ack
 		select {
 		case <-c.Closing():
 			b.log.add(c, "WillPub %s", hx.MsgText(m))
+			if b.willDelay > 0 {
+				time.Sleep(b.willDelay)
+			}
+			defer b.log.add(c, "WillDone")
 		default:
 		}
 	}
